@@ -108,12 +108,15 @@ prop("C17",
 
 prop("C18",
      level="exploration",
-     technique="bounded exhaustive enumeration (E2) over (length, alignment, seed, content pattern) against independent reference implementations; keys end at an ASan redzone at every alignment and at a PROT_NONE page",
+     technique="bounded exhaustive enumeration (E2) over (length, alignment, seed, content pattern) against independent reference implementations; keys end at an ASan redzone at every alignment and sit against PROT_NONE pages on both sides; three builds (ASan -O1, gcc -O0, gcc -O2)",
      rule="every (length 0..N, alignment 0..7, seed in {0,1,0xf721b64d,0xffffffff}, pattern in {00.., FF.., counting, each single byte set to 0x01/0x80}) case runs all six hashes "
           "against references written from the published definitions; over-/under-reads fault at a redzone or PROT_NONE page; non-trivial = keys of length > 0",
      bounds={"quick": "lengths 0..40 (55 k cases) + all 1-byte keys", "thorough": "lengths 0..100 (333 k cases) + all 1- and 2-byte keys"},
      assumptions=["little-endian host (jenkins == jenkinsLE is asserted)", "spifhash_jenkins32 is only driven with 4-byte-aligned keys and a length in 32-bit words"],
-     runs=[dict(name="h_hash", sources=["harness/h_hash.c"], profile="asan", args={"quick": ["--maxlen=40"], "thorough": ["--maxlen=100"]})],
+     runs=[dict(name="h_hash", sources=["harness/h_hash.c"], profile="asan", args={"quick": ["--maxlen=40"], "thorough": ["--maxlen=100"]}),
+           # unoptimised and -O2 builds: a load the optimiser drops at -O1 is still a read past the key in the other builds (PROT_NONE pages catch it)
+           dict(name="h_hash_O0", sources=["harness/h_hash.c"], profile="plain0", args={"quick": ["--maxlen=40"], "thorough": ["--maxlen=100"]}),
+           dict(name="h_hash_O2", sources=["harness/h_hash.c"], profile="plain2", args={"quick": ["--maxlen=40"], "thorough": ["--maxlen=100"]})],
      deadline={"quick": 120, "thorough": 1200})
 
 
@@ -157,10 +160,10 @@ prop("C19",
           "({complete,1 byte,half,EINTR} on read, +EAGAIN on write) is executed on a real UNIX-domain connection and the received bytes compared with the payload; "
           "lifecycle: BFS over {new, open, open with socket/bind/listen/connect failure, accept, failed accept, set_nbio, send, recv, close, dup, del} with the invariant fd>=0 <=> owns an open descriptor "
           "and a descriptor census after deleting everything; non-trivial = every transfer case (each expands into its schedule tree) + distinct lifecycle states",
-     bounds={"quick": "k=5 calls, <=2 deviations; lifecycle depth 6", "thorough": "k=7 calls, <=3 deviations; lifecycle depth 9"},
+     bounds={"quick": "k=5 calls, <=2 deviations; lifecycle depth 8 with one-step look-ahead", "thorough": "k=7 calls, <=3 deviations; lifecycle to its fixpoint (depth cap 30) with one-step look-ahead"},
      runs=[dict(name="h_sock", sources=["harness/h_sock.c"], profile="asan",
                 wraps=["read", "write", "select", "socket", "bind", "listen", "connect", "accept"],
-                args={"quick": ["--k=5", "--dev=2", "--depth=6"], "thorough": ["--k=7", "--dev=3", "--depth=9"]})],
+                args={"quick": ["--k=5", "--dev=2", "--depth=8"], "thorough": ["--k=7", "--dev=3", "--depth=30"]})],
      deadline={"quick": 240, "thorough": 3000})
 
 
